@@ -15,6 +15,8 @@ META = {
 
 REQUIRED_COVERS = {"any": profiles.REQUIRED["C13"]}
 
+CROSSCHECK = {"thorough": 8}
+
 
 def sim(p, ctx):
     M = run_sim(p, ctx)
